@@ -95,24 +95,24 @@ Proof. unfold perm_ops. repeat constructor. Qed.
 (* the node a complete store leaves at the target *)
 Definition new_node (content : str) (gid : N) (i : N) : node := File content PERMS ME gid NOW i.
 
-Lemma staged_new content gid tmp i :
-  staged_node MODE_TMP (chunks_of content) (perm_ops tmp gid) i = new_node content gid i.
-Proof. unfold staged_node, perm_ops, chunks_of, new_node. cbn. rewrite concat_singletons. reflexivity. Qed.
+Lemma staged_new chunks gid tmp i :
+  staged_node MODE_TMP chunks (perm_ops tmp gid) i = new_node (concat chunks) gid i.
+Proof. unfold staged_node, perm_ops, new_node. cbn. reflexivity. Qed.
 
 (* THE FRAME of a store at every crash point k *)
-Theorem store_frame_proof : forall s loc pid gid cpv content k,
+Theorem store_frame_proof : forall s loc pid gid cpv chunks k,
   cpv <> [] ->
   let tmp := tmp_path loc pid cpv in
   let target := target_path loc cpv in
-  let ops := store_ops s loc pid gid cpv content in
+  let ops := store_ops s loc pid gid cpv chunks in
   let sk := run (firstn k ops) s in
   (forall q, q <> target -> q <> tmp ->
      lookup sk q = lookup s q \/ (lookup s q = None /\ is_dir_opt (lookup sk q))) /\
   (lookup sk target = lookup s target \/
-   (exists i, lookup sk target = Some (new_node content gid i)) /\ lookup sk tmp = None /\ (length ops <= k)%nat).
+   (exists i, lookup sk target = Some (new_node (concat chunks) gid i)) /\ lookup sk tmp = None /\ (length ops <= k)%nat).
 Proof.
-  intros s loc pid gid cpv content k Hne tmp target ops sk.
-  set (rep := replace_ops tmp target MODE_TMP (chunks_of content) (perm_ops tmp gid)).
+  intros s loc pid gid cpv chunks k Hne tmp target ops sk.
+  set (rep := replace_ops tmp target MODE_TMP chunks (perm_ops tmp gid)).
   set (pre := if isdir s (parent tmp) then [] else mkdir_ops s (parent tmp)).
   assert (Eops : ops = pre ++ rep).
   { subst ops pre rep. unfold store_ops. fold tmp target. destruct (isdir s (parent tmp)); reflexivity. }
@@ -138,14 +138,14 @@ Proof.
     by (apply mkdirs_run_frame; [exact Ha|intro H; apply Htgt_out, Hain, H]).
   destruct (run_opt a s) as [s1|] eqn:Ero.
   - pose proof (run_opt_run _ _ _ Ero) as Es1. rewrite Es1 in Hmid, Hmid_tgt.
-    destruct (atomic_replace s1 tmp target MODE_TMP (chunks_of content) (perm_ops tmp gid) (k - length pre) Hne2
+    destruct (atomic_replace s1 tmp target MODE_TMP chunks (perm_ops tmp gid) (k - length pre) Hne2
                 (perm_ops_ok tmp gid)) as [Hfr Hp]. fold rep in Hfr, Hp.
     split.
     + intros q Hq1 Hq2. rewrite (Hfr q Hq1 Hq2). apply Hmid.
     + destruct Hp as [Hp|[s2 [Hs2 [Hp [Hgone Hk]]]]]; [left; congruence|].
       right. split; [|split; [exact Hgone|]].
       * exists (fresh_ino s1). rewrite Hp.
-        rewrite (staged_complete _ _ _ _ _ _ (perm_ops_ok tmp gid) Hs2). f_equal. apply staged_new.
+        rewrite (staged_complete _ _ _ _ _ _ (perm_ops_ok tmp gid) Hs2). rewrite staged_new. reflexivity.
       * rewrite app_length.
         destruct (Nat.le_gt_cases (length pre) k) as [Hle|Hgt]; [lia|].
         replace (k - length pre)%nat with 0%nat in Hk by lia. subst rep. unfold replace_ops in Hk. cbn in Hk. lia.
@@ -159,29 +159,29 @@ Qed.
 Lemma target_inj loc a b : target_path loc a = target_path loc b -> a = b.
 Proof. unfold target_path. apply app_inv_head. Qed.
 
-Theorem store_atomic_proof : forall lay s loc pid gid cpv content k,
+Theorem store_atomic_proof : forall lay s loc pid gid cpv chunks k,
   cpv <> [] ->
-  let ops := store_ops s loc pid gid cpv content in
+  let ops := store_ops s loc pid gid cpv chunks in
   let sk := run (firstn k ops) s in
   read_entry lay sk loc cpv = read_entry lay s loc cpv \/
-  ((length ops <= k)%nat /\ read_entry lay sk loc cpv = parse lay content).
+  ((length ops <= k)%nat /\ read_entry lay sk loc cpv = parse lay (concat chunks)).
 Proof.
-  intros lay s loc pid gid cpv content k Hne ops sk.
-  destruct (store_frame_proof s loc pid gid cpv content k Hne) as [_ [H|[[i H] [_ Hk]]]];
+  intros lay s loc pid gid cpv chunks k Hne ops sk.
+  destruct (store_frame_proof s loc pid gid cpv chunks k Hne) as [_ [H|[[i H] [_ Hk]]]];
     fold ops in H; fold sk in H; unfold read_entry.
   - left. rewrite H. reflexivity.
   - right. split; [exact Hk|]. rewrite H. reflexivity.
 Qed.
 
 (* every other entry that exists is read exactly as before *)
-Theorem store_others_proof : forall lay s loc pid gid cpv content k cpv',
+Theorem store_others_proof : forall lay s loc pid gid cpv chunks k cpv',
   cpv <> [] -> cpv' <> cpv -> target_path loc cpv' <> tmp_path loc pid cpv ->
   lookup s (target_path loc cpv') <> None ->
-  let sk := run (firstn k (store_ops s loc pid gid cpv content)) s in
+  let sk := run (firstn k (store_ops s loc pid gid cpv chunks)) s in
   read_entry lay sk loc cpv' = read_entry lay s loc cpv'.
 Proof.
-  intros lay s loc pid gid cpv content k cpv' Hne Hd Ht Hb sk.
-  destruct (store_frame_proof s loc pid gid cpv content k Hne) as [Hfr _].
+  intros lay s loc pid gid cpv chunks k cpv' Hne Hd Ht Hb sk.
+  destruct (store_frame_proof s loc pid gid cpv chunks k Hne) as [Hfr _].
   destruct (Hfr (target_path loc cpv')) as [E|[E _]]; [intro E; apply Hd, (target_inj loc), E|exact Ht| |contradiction].
   unfold read_entry. fold sk in E. rewrite E. reflexivity.
 Qed.
@@ -224,14 +224,14 @@ Qed.
 Lemma listable_node b loc p n n' : is_dir_node n = is_dir_node n' -> listable b loc p n = listable b loc p n'.
 Proof. unfold listable. intros ->. reflexivity. Qed.
 
-Theorem listing_no_partial_proof : forall lay s loc pid gid cpv content k,
+Theorem listing_no_partial_proof : forall lay s loc pid gid cpv chunks k,
   cpv <> [] ->
-  let sk := run (firstn k (store_ops s loc pid gid cpv content)) s in
-  listing_ok lay s sk loc cpv (parse lay content).
+  let sk := run (firstn k (store_ops s loc pid gid cpv chunks)) s in
+  listing_ok lay s sk loc cpv (parse lay (concat chunks)).
 Proof.
-  intros lay s loc pid gid cpv content k Hne sk key Hin.
+  intros lay s loc pid gid cpv chunks k Hne sk key Hin.
   apply keys_gen_spec in Hin as [p [n [E [L ->]]]].
-  destruct (store_frame_proof s loc pid gid cpv content k Hne) as [Hfr Htg]. fold sk in Hfr, Htg.
+  destruct (store_frame_proof s loc pid gid cpv chunks k Hne) as [Hfr Htg]. fold sk in Hfr, Htg.
   destruct (path_eq_dec p (tmp_path loc pid cpv)) as [->|Hnt]; [rewrite tmp_not_listable in L; discriminate|].
   destruct (path_eq_dec p (target_path loc cpv)) as [->|Hng].
   - destruct Htg as [Ho|[[i Hi] _]].
@@ -244,20 +244,20 @@ Proof.
 Qed.
 
 (* no committed entry disappears from the listing during a store *)
-Theorem listing_keeps_proof : forall s loc pid gid cpv content k key,
+Theorem listing_keeps_proof : forall s loc pid gid cpv chunks k key,
   cpv <> [] ->
-  let sk := run (firstn k (store_ops s loc pid gid cpv content)) s in
+  let sk := run (firstn k (store_ops s loc pid gid cpv chunks)) s in
   In key (keys s loc) -> In key (keys sk loc).
 Proof.
-  intros s loc pid gid cpv content k key Hne sk Hin.
+  intros s loc pid gid cpv chunks k key Hne sk Hin.
   apply keys_gen_spec in Hin as [p [n [E [L ->]]]].
-  destruct (store_frame_proof s loc pid gid cpv content k Hne) as [Hfr Htg]. fold sk in Hfr, Htg.
+  destruct (store_frame_proof s loc pid gid cpv chunks k Hne) as [Hfr Htg]. fold sk in Hfr, Htg.
   destruct (path_eq_dec p (tmp_path loc pid cpv)) as [->|Hnt]; [rewrite tmp_not_listable in L; discriminate|].
   apply keys_gen_spec.
   destruct (path_eq_dec p (target_path loc cpv)) as [->|Hng].
   - destruct Htg as [Ho|[[i Hi] _]].
     + exists (target_path loc cpv), n. rewrite Ho. auto.
-    + exists (target_path loc cpv), (new_node content gid i). split; [exact Hi|]. split; [|reflexivity].
+    + exists (target_path loc cpv), (new_node (concat chunks) gid i). split; [exact Hi|]. split; [|reflexivity].
       transitivity (listable true loc (target_path loc cpv) n); [|exact L]. apply listable_node. unfold listable in L. destruct (is_dir_node n); [|reflexivity].
       cbn in L. rewrite andb_false_r in L. discriminate L.
   - destruct (Hfr p Hng Hnt) as [Eq|[En _]]; [|congruence].
@@ -273,7 +273,8 @@ Definition ex_cpv : path := [lit "cat"; lit "pkg-1"].
 Definition ex_old : str := lit "EAPI=7" ++ [c_nl] ++ lit "_mtime_=5" ++ [c_nl].
 Definition ex_fs : fs := mk_fs true [(ex_cpv, ex_old); ([lit "cat"; lit "other-2"], ex_old)].
 Definition ex_content : str := match serialize Flat ex_entry with Some c => c | None => [] end.
-Definition ex_ops : list op := store_ops ex_fs LOC 4242 250 ex_cpv ex_content.
+Definition ex_ops : list op := store_ops ex_fs LOC 4242 250 ex_cpv (chunks_per_char ex_content).
+Definition ex_ops_buffered : list op := store_ops ex_fs LOC 4242 250 ex_cpv (chunks_at_close ex_content).
 
 Example ex_wf : wf_entry ex_entry.
 Proof.
@@ -297,16 +298,24 @@ Example ex_midway :
   lookup (run (firstn 20 ex_ops) ex_fs) (tmp_path LOC 4242 ex_cpv) <> None.
 Proof. repeat split; vm_compute; congruence. Qed.
 
+(* with the real buffering (one flush at close) the store is 5 system calls; after the flush but
+   before the rename the old entry is still what readers see, the complete one afterwards *)
+Example ex_buffered :
+  length ex_ops_buffered = 5%nat /\
+  read_entry Flat (run (firstn 4 ex_ops_buffered) ex_fs) LOC ex_cpv = read_entry Flat ex_fs LOC ex_cpv /\
+  read_entry Flat (run ex_ops_buffered ex_fs) LOC ex_cpv = parse Flat ex_content.
+Proof. repeat split; vm_compute; reflexivity. Qed.
+
 (* the pinned tree (keys_gen false = no '.update.' filter): the same crash point lists the
    half-written staging file as a package.  This is the defect repaired by
    fixes/C27-skip-update-temp.patch. *)
 Definition listing_ok_unrepaired : Prop :=
-  forall s loc pid gid cpv content k, cpv <> [] ->
-    forall key, In key (keys_gen false (run (firstn k (store_ops s loc pid gid cpv content)) s) loc) ->
+  forall s loc pid gid cpv chunks k, cpv <> [] ->
+    forall key, In key (keys_gen false (run (firstn k (store_ops s loc pid gid cpv chunks)) s) loc) ->
       In key (keys_gen false s loc) \/ key = join_on c_sl cpv.
 Theorem listing_unrepaired_refuted_proof : ~ listing_ok_unrepaired.
 Proof.
-  intro H. specialize (H ex_fs LOC 4242 250 ex_cpv ex_content 20%nat ltac:(discriminate)
+  intro H. specialize (H ex_fs LOC 4242 250 ex_cpv (chunks_per_char ex_content) 20%nat ltac:(discriminate)
                          (lit "cat/.update.4242.pkg-1")).
   destruct H as [H|H]; [vm_compute; tauto|vm_compute in H|vm_compute in H; discriminate].
   intuition discriminate.
